@@ -630,9 +630,12 @@ func (stb *StarTreeBuilder) buildTreeStructure(wip *WipBlock) error {
 			midx := mcNum * TotalMeasFns
 			err := getMeasCval(cwip, recNum, measCidx, mcNum, mcName, num)
 			if err != nil {
+				// The record has no value for this measure column (e.g. the column does not
+				// occur in this block). It is a null like a backfilled one: the record still
+				// belongs to the node and must be counted.
 				log.Debugf("buildTreeStructure: Could not get measure for cname: %v, err: %v",
 					mcName, err)
-				continue
+				num.SetBackfillType()
 			}
 			err = stb.addMeasures(num, lenAggValues, midx, node)
 			if err != nil {
